@@ -47,8 +47,25 @@ class StubCon:
         self.features = of.ofp_features_reply(datapath_id=dpid, ports=list(self.ports.values()))
         self.connect_time = now
         self.sent = []
-    def send(self, m): self.sent.append(m)
+    def send(self, m):
+        # what goes on the wire is fixed at send time: keep bytes, never the message object (it may be reused / mutated by the sender)
+        self.sent.append(bytes(m) if isinstance(m, (bytes, bytearray, memoryview)) else m.pack())
     def __str__(self): return "[stub %s]" % self.dpid
+
+
+def wire_msgs(of, raw):
+    """split the bytes one send() carried into OpenFlow messages: (type, bytes)"""
+    out, i = [], 0
+    while i + 8 <= len(raw):
+        ln = (raw[i + 2] << 8) | raw[i + 3]
+        if ln < 8: break
+        out.append((raw[i + 1], raw[i:i + ln])); i += ln
+    return out
+
+
+def port_mod_of(of, raw):
+    pm = of.ofp_port_mod(); pm.unpack(raw)
+    return pm
 
 
 def hw_of(dpid, port):
@@ -103,7 +120,7 @@ class C19(Check):
     theorems = ["Pox.C19.cull_loop_is_closed_form", "Pox.C19.calc_raises_iff_selfloop", "Pox.C19.tree_is_forest", "Pox.C19.tree_edge_is_bridge",
                 "Pox.C19.calc_terminates", "Pox.C19.link_events", "Pox.C19.event_iff_change", "Pox.C19.in_adjacency_iff_last_added",
                 "Pox.C19.adjacency_exact", "Pox.C19.adjacency_ends_connected", "Pox.C19.down_withdraws", "Pox.C19.sweep_bounds_age",
-                "Pox.C19.flood_ports_partial", "Pox.C19.flood_ports_full_repaired", "Pox.C19.flood_keeps", "Pox.C19.flood_ports_forest",
+                "Pox.C19.flood_ports", "Pox.C19.flood_keeps", "Pox.C19.flood_ports_partial", "Pox.C19.flood_ports_forest",
                 "Pox.C19.cable_floods_iff_tree_edge", "Pox.C19.reach_unique",
                 "Pox.C19.port_mods_are_changes", "Pox.C19.send_failure_recovery", "Pox.C19.bits_are_prev", "Pox.C19.flood_bits",
                 "Pox.C19.probe_roundtrip", "Pox.C19.flood_ports_defect_D20", "Pox.C19.flood_ports_defect_skip",
@@ -144,7 +161,7 @@ class C19(Check):
                   "(flood_ports_full_repaired, flood_keeps).  flood_bits / bits_are_prev / port_mods_are_changes tie _prev to the NO_FLOOD bits on the switches, given that "
                   "every port_mod is applied.  Trusted: Lean kernel, axioms propext/Classical.choice/Quot.sound, the hand-written models, this harness; the theorems are "
                   "about the models, the runs below are what connects them to the code.")
-    rule = ("calc (dict order shuffled per case): 2 and 3 switches exhaustive over all 13 cable options per pair (none / 1 / 2 parallel cables, each bidirectional or one-way "
+    rule = ("calcseq: 2..5 adjacencies through one process in a row (other dict order, a parallel cable gone, a cable re-plugged, the same again); upd: one or two _update_tree() calls from an arbitrary _prev with a send lost at any position; frame corpus: all 256 chassis / port subtypes, all TLV types, declared lengths 0..40 and 255..511; hist corpus: discovery interrupted after every prefix by every switch rebooting, dpid 0, mixed sweeps.  calc (dict order shuffled per case): 2 and 3 switches exhaustive over all 13 cable options per pair (none / 1 / 2 parallel cables, each bidirectional or one-way "
             "either way); 4 switches exhaustive over 5 options per pair (5^6; thorough: 6 options, 6^6, + 100000 sampled over all 13); 5 switches (thorough) exhaustive over {none, bidirectional, "
             "one-way} (3^10) + 60000 sampled over all 13; random multigraphs on 5..12 switches; arbitrary link lists with shared / crossed ports.  hist: random topologies of 2..6 switches with redundant / parallel / one-way "
             "cables and 10..60 ops.  codec: boundary x boundary and random dpids/ports.  frame: damaged and foreign LLDP.  "
@@ -176,7 +193,15 @@ class C19(Check):
             core.registerNew(disc.Discovery)
             st.launch()
         self.D = core.openflow_discovery
-        self.expire_cb = [t.cb for t in StubTimer.made if getattr(t.cb, "__name__", "") == "_expire_links"][0]
+        # the expiry sweep = the recurring timer Discovery set up for one of its own methods (looked up by behaviour, the name is a fallback)
+        cbs = [t.cb for t in StubTimer.made if t.kw.get("recurring") and getattr(t.cb, "__self__", None) is self.D]
+        self.expire_cb = cbs[0] if cbs else getattr(self.D, "_expire_links", None)
+        self.f_calc = getattr(st, "_calc_spanning_tree", None)
+        self.f_update = getattr(st, "_update_tree", None)
+        self.skipped = {}
+        self._pristine = [(self.D, self._snap(vars(self.D))), (st, self._snap(vars(st)))]
+        snd = getattr(self.D, "_sender", None)
+        if snd is not None: self._pristine.append((snd, self._snap(vars(snd))))
         self._events = []
         self._orders = []
         def rec(e):
@@ -215,10 +240,42 @@ class C19(Check):
         self._reset()
         return v
 
+    # -- every case starts from the state the components had right after construction, WHATEVER that state consists of (caches,
+    #    memo tables, sets of link ports ...): hidden state can show inside a case (a history), never leak from one case into the next
+    _PLAIN = (dict, list, set, int, float, bool, str, bytes, tuple, type(None))
+    def _snap(self, d):
+        import collections
+        out = {}
+        for k, v in d.items():
+            if k.startswith("__") or k.startswith("_eventMixin") or k in ("log", "core", "of", "Timer"): continue
+            if isinstance(v, self._PLAIN) or isinstance(v, collections.defaultdict):
+                try: out[k] = copy.deepcopy(v)
+                except Exception: pass
+        return out
+
+    def _restore(self, obj, snap):
+        import collections
+        d = vars(obj)
+        for k, v in snap.items():
+            cur = d.get(k)
+            if isinstance(cur, dict) and isinstance(v, dict):
+                cur.clear(); cur.update(copy.deepcopy(v))
+            elif isinstance(cur, list) and isinstance(v, list):
+                cur[:] = copy.deepcopy(v)
+            elif isinstance(cur, set) and isinstance(v, set):
+                cur.clear(); cur.update(v)
+            else:
+                try: setattr(obj, k, copy.deepcopy(v))
+                except Exception: pass
+        if not isinstance(obj, type(os)):                                  # lazily created instance attributes: back to "not there"
+            for k in [k for k, v in d.items() if k not in snap and not k.startswith("_eventMixin") and
+                      (isinstance(v, self._PLAIN) or isinstance(v, collections.defaultdict))]:
+                try: delattr(obj, k)
+                except Exception: pass
+
     def _reset(self):
+        for obj, snap in self._pristine: self._restore(obj, snap)
         self.D.adjacency.clear()
-        self.D._sender._this_cycle = []; self.D._sender._next_cycle = []
-        self.st._prev.clear(); self.st._dirty_switches.clear()
         self.core.openflow._connections = self.real_conns
         self.real_conns.clear()
         poxenv.clock.now = 1000.0
@@ -262,17 +319,45 @@ class C19(Check):
         cases.append({"kind": "calc", "links": [[9, 1, 1, 1], [1, 1, 9, 1], [1, 2, 9, 2], [9, 2, 1, 2], [17, 1, 9, 3], [9, 3, 17, 1]]})
         cases.append({"kind": "calc", "links": [[1, 2, 9, 2], [9, 2, 1, 2], [9, 1, 1, 1], [1, 1, 9, 1]]})
         # codec boundaries
-        for dpid in (0, 1, 9, 10, 15, 16, 255, 256, 0xabcdef, 2 ** 32 - 1, 2 ** 32, 2 ** 48 - 1, 2 ** 63, 2 ** 64 - 1):
-            for port in (0, 1, 9, 10, 99, 100, 255, 256, 0xfeff, 0xff00, 0xfffe, 0xffff):
+        for dpid in (0, 1, 9, 10, 15, 16, 255, 256, 257, 0xabcdef, 2 ** 31 - 1, 2 ** 31, 2 ** 32 - 1, 2 ** 32, 2 ** 48 - 1, 2 ** 63, 2 ** 64 - 1):
+            for port in (0, 1, 9, 10, 99, 100, 255, 256, 32767, 32768, 0xfeff, 0xff00, 0xfffe, 0xffff):
                 cases.append({"kind": "codec", "dpid": dpid, "port": port})
+        # the same sender asked again: same (dpid, port) with another hw address, same port on the next dpid, same dpid next port, 0 after non-0
+        for dpid, port in ((0x2a, 7), (0, 0), (2 ** 64 - 1, 0xffff), (256, 10)):
+            cases.append({"kind": "codec", "dpid": dpid, "port": port,
+                          "more": [[dpid, port], [(dpid + 1) % 2 ** 64, port], [dpid, (port + 1) % 2 ** 16], [0, 0], [dpid, port]]})
+        cases += self._calcseq_corpus(rng)
         cases += self._hist_corpus()
         cases += self._frame_corpus()
         return cases
 
+    def _calcseq_corpus(self, rng, n=40):
+        """one process, several adjacencies in a row: the same links in another dict order, one of two parallel cables gone, the ports
+        of a cable changed while the switch-level graph stays, the same adjacency again"""
+        out = []
+        for _ in range(n):
+            k = rng.choice([2, 3, 3, 4])
+            dpids = rng.sample([1, 2, 3, 4, 5, 9, 17, 300, 70000], k)
+            base = self._graph_case(k, [rng.choice(CABLE_OPTS[1:]) for _ in range(k * (k - 1) // 2)], rng, dpids)["links"]
+            seq = [base]
+            for _ in range(rng.choice([2, 3, 4])):
+                cur = [list(l) for l in seq[-1]]
+                r = rng.random()
+                if r < 0.25: rng.shuffle(cur)
+                elif r < 0.5 and len(cur) > 1: del cur[rng.randrange(len(cur))]
+                elif r < 0.75 and cur:                                     # re-plug one cable into other ports: same switches, new ports
+                    a, pa, b, pb = cur[rng.randrange(len(cur))]
+                    na, nb = pa + 10, pb + 10
+                    cur = [[a, na, b, nb] if l == [a, pa, b, pb] else [b, nb, a, na] if l == [b, pb, a, pa] else l for l in cur]
+                else: cur = [list(l) for l in seq[0]]
+                seq.append(cur)
+            out.append({"kind": "calcseq", "seq": seq})
+        return out
+
     def _hist_corpus(self):
         T = lambda *cables: [list(map(list, c)) for c in cables]
         tri = {"switches": {"1": [1, 2, 3], "2": [1, 2, 3], "3": [1, 2, 3, 65534]},
-               "cables": T(((1, 1), (2, 1)), ((2, 2), (3, 1)), ((1, 2), (3, 2)))}
+               "cables": T(((1, 1), (2, 1)), ((2, 2), (3, 1)), ((1, 2), (3, 2)), ((1, 3), (2, 3)))}
         def P(a, b): return {"k": "probe", "from": list(a), "to": list(b)}
         def rnd(cables): return [P(a, b) for a, b in cables] + [P(b, a) for a, b in cables]
         ups = [{"k": "up", "dpid": d} for d in (1, 2, 3)]
@@ -309,6 +394,20 @@ class C19(Check):
                                   (b, [P((c2, 1), (b, 2)), P((a, 1), (b, 1)), P((b, 1), (a, 1)), P((b, 2), (c2, 1))])):
                 out.append({"kind": "hist", "topo": t3, "ops": up3 + rnd(cab) + [{"k": "down", "dpid": victim}, {"k": "tick", "dt": 1000},
                             {"k": "up", "dpid": victim}] + again})
+        # loss at every prefix: the triangle's discovery (6 probes) interrupted after every step by the disconnect (and return) of every switch
+        for k in range(7):
+            for d in (1, 2, 3):
+                out.append({"kind": "hist", "topo": tri, "ops": ups + rnd(c)[:k] + [{"k": "down", "dpid": d}, {"k": "up", "dpid": d}] + rnd(c) +
+                            [{"k": "tick", "dt": 5000}, {"k": "sweep"}]})
+        # rare values: dpid 0 (falsy) in a triangle with its reboot; the highest real port number 0xfeff next to OFPP_MAX and LOCAL
+        t0 = {"switches": {"0": [1, 2, 3], "1": [1, 2, 0xfeff, 0xff00, 65534], "2": [1, 2, 3]},
+              "cables": T(((0, 1), (1, 1)), ((1, 2), (2, 1)), ((0, 2), (2, 2)))}
+        c0 = [((0, 1), (1, 1)), ((1, 2), (2, 1)), ((0, 2), (2, 2))]
+        out.append({"kind": "hist", "topo": t0, "ops": [{"k": "up", "dpid": d} for d in (0, 1, 2)] + rnd(c0) +
+                    [{"k": "down", "dpid": 0}, {"k": "up", "dpid": 0}] + rnd(c0) + [{"k": "down", "dpid": 2}]})
+        # several things in ONE sweep: a tree link and a blocked link expire, a one-way link expires, another link is exactly 10 s old (stays)
+        out.append({"kind": "hist", "topo": tri, "ops": ups + rnd(c) + [P((1, 3), (2, 3))] + [{"k": "tick", "dt": 125}] + rnd([c[2]]) +
+                    [{"k": "tick", "dt": 10000}, {"k": "sweep"}, {"k": "tick", "dt": 125}, {"k": "sweep"}]})
         # C19-2: triangle, then both links of switch 2 die in one sweep: 2 leaves the tree with its port towards 3 still blocked
         out.append({"kind": "hist", "topo": tri, "ops": ups + rnd(c) + [{"k": "tick", "dt": 6000}] + rnd([c[2]]) +
                     [{"k": "tick", "dt": 6000}, {"k": "sweep"}]})
@@ -338,7 +437,22 @@ class C19(Check):
             self._mk_frame([(1, b"\x07dpid:2a"), (2, b"\x02\x00\x11"), tt, end]),   # 16-bit binary port id
             self._mk_frame([(1, b"\x04\x00\x00\x00\x00\x00\x2a"), po, tt, end]),  # MAC chassis id
         ]
-        return [{"kind": "frame", "frame": f} for f in fixed + self._frame_variants(None, 60)]
+        # structure-aware sweeps of every selector byte (lengths kept consistent by _mk_frame): chassis subtype, port subtype, type of the
+        # 4th TLV (8 = management address is outside the model), declared length of the system description against 9 bytes of data
+        sweep = []
+        for v in range(256):
+            sweep.append(self._mk_frame([(1, bytes([v]) + b"dpid:2a"), po, tt, end]))
+            sweep.append(self._mk_frame([ch, (2, bytes([v]) + b"17"), tt, sd, end]))
+        for t in range(128):
+            if t == 8: continue
+            sweep.append(self._mk_frame([ch, po, tt, (t, b"dpid:2b"), end]))
+            sweep.append(self._mk_frame([ch, po, tt, (t, b"\x00\x04\x00\x04"), sd, end]))
+        for n in range(0, 41):
+            hdr = bytes([(6 << 1) | (n >> 8 & 1), n & 255])
+            sweep.append(self._mk_frame([ch, po, tt], tail=hdr + b"dpid:2c\n!" + b"\x00\x00"))
+        for n in (255, 256, 510, 511):                                     # data lengths around the 9-bit length field
+            sweep.append(self._mk_frame([ch, po, tt, (6, b"x" * (n - 8) + b"\ndpid:2d"), end]))
+        return [{"kind": "frame", "frame": f} for f in fixed + sweep + self._frame_variants(None, 60)]
 
     def _mk_frame(self, tlvs, dst=None, typ=b"\x88\xcc", tail=b""):
         body = b""
@@ -497,14 +611,17 @@ class C19(Check):
                 used.setdefault(a, set()).add(pa); used.setdefault(b, set()).add(pb)
             conns = {}
             for d, ps in sorted(used.items()):
-                if rng.random() < 0.9:
+                if True:                                                      # every end of every link is a connected switch (as in any history)
                     ports = sorted(ps) + [max(ps) + 1 + i for i in range(rng.choice([0, 1, 2]))] + ([65534] if rng.random() < 0.3 else [])
                     rng.shuffle(ports); conns[str(d)] = ports
             prev = [[int(d), p, rng.random() < 0.5] for d, ps in conns.items() for p in ps if rng.random() < 0.4]
-            yield {"kind": "upd", "links": g["links"], "conns": conns, "prev": prev,
-                   "fail": rng.choice([None, None, 0, 1, 2, 3, 5, 8])}
+            nports = sum(1 for ps in conns.values() for p in ps if p < OFPP_MAX)
+            fail = None if rng.random() < 0.35 else rng.randrange(0, nports + 1)       # a send lost at any position of the update
+            yield {"kind": "upd", "links": g["links"], "conns": conns, "prev": prev, "fail": fail, "again": rng.random() < 0.7}
+        for c in self._calcseq_corpus(rng, 150 if quick else 3000): yield c
         for _ in range(400 if quick else 5000):
-            yield {"kind": "codec", "dpid": rng.choice([rng.getrandbits(64), rng.getrandbits(rng.randrange(1, 65)), rng.randrange(0, 300)]),
+            yield {"kind": "codec", "more": [] if rng.random() < 0.7 else [[rng.getrandbits(rng.choice([3, 16, 64])), rng.getrandbits(rng.choice([3, 16]))] for _ in range(2)],
+                    "dpid": rng.choice([rng.getrandbits(64), rng.getrandbits(rng.randrange(1, 65)), rng.randrange(0, 300)]),
                    "port": rng.choice([rng.getrandbits(16), rng.randrange(0, 120)])}
         for f in self._frame_variants(rng, 400 if quick else 5000):
             yield {"kind": "frame", "frame": f}
@@ -524,17 +641,31 @@ class C19(Check):
         self._reset()
         return getattr(self, "_impl_" + case["kind"])(case)
 
-    def _impl_calc(self, case):
+    def _skip(self, what):
+        self.skipped[what] = self.skipped.get(what, 0) + 1
+        return {"skipped": what}
+
+    def _calc_once(self, links):
         L = self.disc.Link
-        for l in case["links"]:
-            self.D.adjacency[L(*l)] = 0
+        self.D.adjacency.clear()
+        for l in links:
+            self.D.adjacency[L(*[int(str(x)) for x in l])] = 0          # equal dpids in different links are different int objects
         order = self._set_order()
         try:
-            tree = self.st._calc_spanning_tree()
+            tree = self.f_calc()
         except Exception as e:
             return {"exc": type(e).__name__, "order": order}
         return {"tree": sorted([sw, w, p] for sw, ports in tree.items() for (w, p) in ports), "order": order,
                 "keys": list(tree.keys())}
+
+    def _impl_calc(self, case):
+        if self.f_calc is None: return self._skip("spanning_tree._calc_spanning_tree not found")
+        return self._calc_once(case["links"])
+
+    def _impl_calcseq(self, case):
+        """several adjacencies through the same process one after the other: each answer must be the one a fresh process gives"""
+        if self.f_calc is None: return self._skip("spanning_tree._calc_spanning_tree not found")
+        return {"items": [self._calc_once(links) for links in case["seq"]]}
 
     # -- `spanning_tree._prev` is internal state: touched only through this adapter (nested dict-of-dicts or flat {(dpid, port): b});
     #    an unknown shape means the `upd` kind cannot preset / read it and is skipped (noted in evidence)
@@ -564,31 +695,44 @@ class C19(Check):
         if self._prev_shape() is None:
             self._skipped_upd = getattr(self, "_skipped_upd", 0) + 1
             return {"skipped": "unknown shape of spanning_tree._prev"}
+        if self.f_update is None: return self._skip("spanning_tree._update_tree not found")
         L, of = self.disc.Link, self.of
         for l in case["links"]:
             self.D.adjacency[L(*l)] = 0
-        sent, fail = [], case["fail"]
+        sent, fail = [], [case["fail"]]
         class FailCon(StubCon):
             def send(s, m):
-                if isinstance(m, of.ofp_port_mod):
-                    if fail is not None and len(sent) == fail: raise IOError("send failed")
-                    sent.append([s.dpid, m.port_no, (m.config & of.OFPPC_NO_FLOOD) == 0])
+                raw = bytes(m) if isinstance(m, (bytes, bytearray, memoryview)) else m.pack()
+                for typ, mb in wire_msgs(of, raw):
+                    if typ == of.OFPT_PORT_MOD:
+                        if fail[0] is not None and len(sent) == fail[0]: raise IOError("send failed")
+                        pm = port_mod_of(of, mb)
+                        sent.append([s.dpid, pm.port_no, (pm.config & of.OFPPC_NO_FLOOD) == 0])
         for d, ports in case["conns"].items():
             self.core.openflow._connect(FailCon(of, int(d), ports, poxenv.clock()))
         for d, p, b in case["prev"]:
             self._prev_set(d, p, b)
         order = self._set_order()
+        def readprev():
+            try:
+                return self._prev_items()
+            except TypeError:
+                self._skipped_upd = getattr(self, "_skipped_upd", 0) + 1
+                self.__dict__.setdefault("_noprev", set()).add(common.canon(case))
+                return None
         try:
-            self.st._update_tree()
+            self.f_update()
         except Exception as e:
             return {"exc": type(e).__name__, "order": order}
-        try:
-            prev = self._prev_items()
-        except TypeError:
-            prev = None
-            self._skipped_upd = getattr(self, "_skipped_upd", 0) + 1
-            self.__dict__.setdefault("_noprev", set()).add(common.canon(case))
-        return {"mods": sent, "prev": prev, "order": order}
+        out = {"mods": list(sent), "prev": readprev(), "order": order}
+        if case.get("again"):                                              # the next _update_tree(), with every send going through
+            n1 = len(sent); fail[0] = None
+            try:
+                self.f_update()
+            except Exception as e:
+                return {"exc": type(e).__name__, "order": order}
+            out["mods2"] = sent[n1:]; out["prev2"] = readprev()
+        return out
 
     def _norm_ops(self, case):
         """drop ops that cannot happen (PacketIn from a switch that is not connected, ConnectionUp of a connected switch, ...)"""
@@ -615,15 +759,18 @@ class C19(Check):
         steps = []
         def drain(con):
             mods = []
-            for m in con.sent:
-                if isinstance(m, bytes):                                   # LLDPSender: packed ofp_packet_out
-                    po = of.ofp_packet_out(); po.unpack(m)
-                    frames[(con.dpid, po.actions[0].port)] = po.data
-                elif isinstance(m, of.ofp_port_mod):
-                    assert m.mask == of.OFPPC_NO_FLOOD and m.hw_addr == con.ports[m.port_no].hw_addr
-                    flood = (m.config & of.OFPPC_NO_FLOOD) == 0
-                    bits[(con.dpid, m.port_no)] = flood
-                    mods.append([con.dpid, m.port_no, flood])
+            for raw in con.sent:
+                for typ, mb in wire_msgs(of, raw):
+                    if typ == of.OFPT_PACKET_OUT:                          # LLDPSender's probe
+                        po = of.ofp_packet_out(); po.unpack(mb)
+                        if po.actions and po.data:                       # (the explicit drop of a buffered LLDP has neither)
+                            frames[(con.dpid, po.actions[0].port)] = po.data
+                    elif typ == of.OFPT_PORT_MOD:
+                        m = port_mod_of(of, mb)
+                        if m.mask & of.OFPPC_NO_FLOOD and m.hw_addr == con.ports[m.port_no].hw_addr:   # a switch ignores a port_mod for another hw address
+                            flood = (m.config & of.OFPPC_NO_FLOOD) == 0
+                            bits[(con.dpid, m.port_no)] = flood
+                        mods.append([con.dpid, m.port_no, (m.config & of.OFPPC_NO_FLOOD) == 0])
             del con.sent[:]
             return mods
         for op in self._norm_ops(case):
@@ -682,18 +829,23 @@ class C19(Check):
         finally:
             self.core.openflow._connections = self.real_conns
 
-    def _impl_codec(self, case):
-        dpid, port = case["dpid"], case["port"]
-        hw = hw_of(dpid & 0xffffffff, port)
+    def _codec_once(self, dpid, port, idx):
+        hw = bytes([2 + 2 * idx]) + hw_of(dpid & 0xffffffff, port)[1:]
         frame = self.disc.LLDPSender._create_discovery_packet(dpid, port, hw, 120).pack()
         # the same through create_packet_out (what the sender really transmits)
         snd = self.D._sender
         po = self.of.ofp_packet_out(); po.unpack(snd.create_packet_out(dpid, port, hw))
-        out = {"frame": frame.hex(), "po_same": po.data == frame, "po_port": po.actions[0].port, "hw": hw.hex()}
+        out = {"dpid": dpid, "port": port, "frame": frame.hex(), "po_same": po.data == frame, "po_port": po.actions[0].port, "hw": hw.hex()}
+        self.D.adjacency.clear()
         out.update(self._packet_in(frame))
         # and the parsed packet re-packs to the same bytes
         out["repack_same"] = self.pkt.ethernet(frame).pack() == frame
         return out
+
+    def _impl_codec(self, case):
+        """the probe for (dpid, port), then -- on the same sender and the same Discovery, nothing reset in between -- the probes for the
+        (dpid, port) pairs in `more` (same port with another hardware address, neighbouring dpid, ...): each must be its own"""
+        return {"items": [self._codec_once(d, p, i) for i, (d, p) in enumerate([[case["dpid"], case["port"]]] + case.get("more", []))]}
 
     def _impl_frame(self, case):
         return self._packet_in(bytes.fromhex(case["frame"]))
@@ -707,13 +859,17 @@ class C19(Check):
     def model_request2(self, case, obs):
         k = case["kind"]
         if k == "calc":
+            if "skipped" in obs: return None
             return {"op": "calc", "adj": case["links"], "order": obs["order"]}
         if k == "upd":
             if "skipped" in obs: return None
             return {"op": "update", "adj": case["links"], "order": obs["order"], "conns": [[int(d), ps] for d, ps in case["conns"].items()],
-                    "prev": case["prev"], "fail": case["fail"], "all": self.variant["visitAll"]}
+                    "prev": case["prev"], "fail": case["fail"], "all": self.variant["visitAll"], "again": bool(case.get("again"))}
+        if k == "calcseq":
+            if "skipped" in obs: return None
+            return {"op": "batch", "reqs": [{"op": "calc", "adj": links, "order": it["order"]} for links, it in zip(case["seq"], obs["items"])]}
         if k == "codec":
-            return {"op": "pack", "dpid": case["dpid"], "port": case["port"], "hw": obs["hw"], "ttl": 120}
+            return {"op": "batch", "reqs": [{"op": "pack", "dpid": it["dpid"], "port": it["port"], "hw": it["hw"], "ttl": 120} for it in obs["items"]]}
         if k == "hist":
             sw = {int(d): ps for d, ps in case["topo"]["switches"].items()}
             ops = []
@@ -729,13 +885,21 @@ class C19(Check):
 
     def impl_view(self, case, obs):
         k = case["kind"]
+        if isinstance(obs, dict) and "skipped" in obs: return obs
         if k == "calc":
             return {"exc": obs["exc"]} if "exc" in obs else {"tree": obs["tree"], "keys": obs["keys"]}
         if k == "codec":
-            return {"frame": obs["frame"]}
+            return [it["frame"] for it in obs["items"]]
         if k == "upd":
             if "exc" in obs: return {"exc": obs["exc"]}
-            return {"mods": obs["mods"], "prev": obs["prev"]} if obs["prev"] is not None else {"mods": obs["mods"]}
+            v = {"mods": obs["mods"]}
+            if "mods2" in obs: v["mods2"] = obs["mods2"]
+            if obs["prev"] is not None:
+                v["prev"] = obs["prev"]
+                if "prev2" in obs and obs["prev2"] is not None: v["prev2"] = obs["prev2"]
+            return v
+        if k == "calcseq":
+            return [self.impl_view({"kind": "calc"}, it) for it in obs["items"]]
         if k == "hist":
             return {"steps": [{"events": s["events"], "mods": s["mods"]} for s in obs["steps"]], "adjacency": obs["adjacency"]}
         return obs
@@ -748,11 +912,17 @@ class C19(Check):
             return {"tree": sorted([[v, w, pv] for v, pv, w, pw in resp["tree"]] + [[w, v, pw] for v, pv, w, pw in resp["tree"]]),
                     "keys": resp["keys"]}
         if k == "codec":
-            return {"frame": resp["frame"]}
+            return [r.get("frame", r) for r in resp["resps"]]
         if k == "upd":
             if "exc" in resp: return {"exc": resp["exc"]}
-            if common.canon(case) in getattr(self, "_noprev", ()): return {"mods": resp["mods"]}
-            return {"mods": resp["mods"], "prev": sorted(resp["prev"])}
+            v = {"mods": resp["mods"]}
+            if "mods2" in resp: v["mods2"] = resp["mods2"]
+            if common.canon(case) not in getattr(self, "_noprev", ()):
+                v["prev"] = sorted(resp["prev"])
+                if "prev2" in resp: v["prev2"] = sorted(resp["prev2"])
+            return v
+        if k == "calcseq":
+            return [self.model_obs({"kind": "calc"}, r) for r in resp["resps"]]
         if k == "hist":
             return {"steps": [{"events": o["events"], "mods": sorted(o["mods"])} for o in resp["outs"]], "adjacency": resp["adjacency"]}
         return resp
@@ -762,21 +932,43 @@ class C19(Check):
         return getattr(self, "_oracle_" + case["kind"])(case, obs)
 
     def _oracle_upd(self, case, obs):
-        return None                                  # one _update_tree() from an arbitrary _prev: correspondence only
+        """the switches start in the state `_prev` remembers (a port without an entry floods).  After an _update_tree() whose sends
+        all went through -- the first one, or the one that follows a failed send -- the flood property must hold on the switches."""
+        if "skipped" in obs or "exc" in obs: return None
+        failed = case["fail"] is not None and "mods2" in obs and not self._all_sent(case, obs)
+        if case["fail"] is not None and "mods2" not in obs: return None     # a possibly failed update with nothing after it: nothing to demand
+        bits = {(d, p): b for d, p, b in case["prev"]}
+        for d, p, b in obs["mods"] + obs.get("mods2", []): bits[(d, p)] = b
+        sw = {int(d): ps for d, ps in case["conns"].items()}
+        hard, low = self._flood_check([tuple(l) for l in case["links"]], bits, sorted(sw), sw, "update" if not failed else "send-failure+update")
+        return hard or (low[0] if low else None)
+
+    def _all_sent(self, case, obs):
+        return case["fail"] is None or len(obs["mods"]) < case["fail"]      # fewer port_mods than the failing index: nothing failed
+
+    def _oracle_calcseq(self, case, obs):
+        if "skipped" in obs: return None
+        for links, it in zip(case["seq"], obs["items"]):
+            f = self._oracle_calc({"links": links}, it)
+            if f: return f.replace("calc:", "calc: in a sequence of calls:", 1)
+        return None
 
     def _oracle_frame(self, case, obs):
         return None                                  # the property says nothing about foreign LLDP; correspondence only
 
     def _oracle_codec(self, case, obs):
-        if "exc" in obs: return "codec: probe handler raised %s" % obs["exc"]
-        if obs["r"] != ["link", case["dpid"], case["port"]]:
-            return "codec: probe for (%d,%d) recovered as %s" % (case["dpid"], case["port"], obs["r"])
-        if not obs["po_same"] or obs["po_port"] != case["port"]:
-            return "codec: packet_out does not carry the probe / wrong output port"
-        if not obs["repack_same"]: return "codec: parsed probe does not re-pack to the same bytes"
+        for i, it in enumerate(obs["items"]):
+            where = "" if i == 0 else " (call %d on the same sender)" % (i + 1)
+            if "exc" in it: return "codec: probe handler raised %s%s" % (it["exc"], where)
+            if it["r"] != ["link", it["dpid"], it["port"]]:
+                return "codec: probe for (%d,%d) recovered as %s%s" % (it["dpid"], it["port"], it["r"], where)
+            if not it["po_same"] or it["po_port"] != it["port"]:
+                return "codec: packet_out does not carry the probe / wrong output port%s" % where
+            if not it["repack_same"]: return "codec: parsed probe does not re-pack to the same bytes%s" % where
         return None
 
     def _oracle_calc(self, case, obs):
+        if "skipped" in obs: return None
         links = [tuple(l) for l in case["links"]]
         if any(a == c for a, b, c, d in links):
             return None                              # self-link: outside the quantifier
@@ -832,41 +1024,50 @@ class C19(Check):
         low = []
         for op, st in zip(ops, obs["steps"]):
             if "snap" not in st: continue
-            adj = [tuple(l) for l in st["snap"]["adj"]]
-            if any(a == c for a, b, c, d in adj): continue              # self-link: outside the quantifier
-            bits = {(d, p): b for d, p, b in st["snap"]["bits"]}
-            on = lambda end: bits.get(tuple(end), True)
-            linkports = {(a, b) for a, b, c, d in adj} | {(c, d) for a, b, c, d in adj}
-            cables = bidir_cables(adj)
-            treesw = {e[0] for c in cables for e in c}
-            enabled = []
-            for e1, e2 in cables:
-                if on(e1) != on(e2): return "flood: after %s: link %s-%s enabled on one end only (a flood leaves through that end and comes back over the tree: the flood-enabled ports contain a cycle)" % (op["k"], e1, e2)
-                if on(e1): enabled.append((e1, e2))
-            f = forest_check(adj, enabled, sorted({a for a, b, c, d in adj} | {c for a, b, c, d in adj}))
-            if f: return "flood: after %s: enabled links are %s" % (op["k"], f)
-            # the statement of flood_ports_full / flood_bits for EVERY connected switch: a port that is an endpoint of a known link
-            # floods only if it is a tree port -- an endpoint of one-way links only never is; a port without a known link floods.
-            # (for a switch outside the tree the two failures are the symptoms of "_update_tree visits only the tree": keyed apart)
-            bidirports = {e for c in cables for e in c}
-            for d in st["snap"]["up"]:
-                for p in sw[d]:
-                    if p < OFPP_MAX and (d, p) in linkports and (d, p) not in bidirports and on((d, p)):
-                        if d in treesw:
-                            return "flood: after %s: port %d.%d of a tree switch is an end of a one-way link only and still floods" % (op["k"], d, p)
-                        low.insert(0, "flood: outside-tree switch: port %d.%d is an end of a one-way link and still floods (after %s)" % (d, p, op["k"]))
-            for d in st["snap"]["up"]:
-                for p in sw[d]:
-                    if p < OFPP_MAX and (d, p) not in linkports and not on((d, p)):
-                        if d in treesw: return "flood: after %s: host-facing port %d.%d of a tree switch has NO_FLOOD" % (op["k"], d, p)
-                        low.append("flood: outside-tree switch: host-facing port %d.%d has NO_FLOOD (after %s)" % (d, p, op["k"]))
+            hard, lo = self._flood_check([tuple(l) for l in st["snap"]["adj"]], {(d, p): b for d, p, b in st["snap"]["bits"]},
+                                         st["snap"]["up"], sw, op["k"])
+            if hard: return hard
+            low += lo
         return low[0] if low else None
+
+    def _flood_check(self, adj, bits, up, sw, opname):
+        """the statement of flood_ports / flood_bits / flood_keeps on the switch-side port config `bits` (a port that was never sent a
+        port_mod on its connection floods): (hard failure or None, failures on switches outside the tree)"""
+        low = []
+        if any(a == c for a, b, c, d in adj): return None, low             # self-link: outside the quantifier
+        on = lambda end: bits.get(tuple(end), True)
+        linkports = {(a, b) for a, b, c, d in adj} | {(c, d) for a, b, c, d in adj}
+        cables = bidir_cables(adj)
+        treesw = {e[0] for c in cables for e in c}
+        enabled = []
+        for e1, e2 in cables:
+            if on(e1) != on(e2):
+                return ("flood: after %s: link %s-%s enabled on one end only (a flood leaves through that end and comes back over the tree: "
+                        "the flood-enabled ports contain a cycle)" % (opname, e1, e2)), low
+            if on(e1): enabled.append((e1, e2))
+        f = forest_check(adj, enabled, sorted({a for a, b, c, d in adj} | {c for a, b, c, d in adj}))
+        if f: return "flood: after %s: enabled links are %s" % (opname, f), low
+        # every connected switch: a port that is an endpoint of a known link floods only if it is a tree port -- an endpoint of
+        # one-way links only never is; a port without a known link floods.  (failures on a switch outside the tree are keyed apart)
+        bidirports = {e for c in cables for e in c}
+        for d in up:
+            for p in sw[d]:
+                if p < OFPP_MAX and (d, p) in linkports and (d, p) not in bidirports and on((d, p)):
+                    if d in treesw:
+                        return "flood: after %s: port %d.%d of a tree switch is an end of a one-way link only and still floods" % (opname, d, p), low
+                    low.insert(0, "flood: outside-tree switch: port %d.%d is an end of a one-way link and still floods (after %s)" % (d, p, opname))
+        for d in up:
+            for p in sw[d]:
+                if p < OFPP_MAX and (d, p) not in linkports and not on((d, p)):
+                    if d in treesw: return "flood: after %s: host-facing port %d.%d of a tree switch has NO_FLOOD" % (opname, d, p), low
+                    low.append("flood: outside-tree switch: host-facing port %d.%d has NO_FLOOD (after %s)" % (d, p, opname))
+        return None, low
 
     def finding_key(self, case, obs, failure):
         if failure.startswith("flood: outside-tree switch"):
             return "flood:outside-tree-switch:" + ("link-port-floods" if "one-way link" in failure else "host-port-noflood")
         if failure.startswith("flood: after"):
-            k = failure.split()[2].rstrip(":")
+            k = failure.split()[2].rstrip(":").replace("+", "-")
             what = ("half-enabled" if "one end only" in failure else "cycle" if failure.endswith("cycle") else
                     "not-spanning" if failure.endswith("not-spanning") else
                     "oneway-port-floods" if "one-way link only" in failure else "host-port-noflood")
